@@ -217,6 +217,22 @@ def generate(src):
                         __witness=W, __explicit=explicit, __tag=tag)
         ex.run(fdef, st, on_ret, on_exc)
     src.note_paths('::get_task_delay', exits['return'] + exits['raise'])
+    # ---------------- ScheduledTask's model validator (every schedule source builds its schedules through it): it only CHECKS, it changes no field
+    VREL = 'taskiq/scheduler/scheduled_task/v2.py'
+    try: vcls = src.func(VREL, 'ScheduledTask')
+    except Unsupported: vcls = None
+    vals_ = [n_ for n_ in (vcls.body if vcls is not None else []) if isinstance(n_, ast.FunctionDef) and any('model_validator' in ast.unparse(d) for d in n_.decorator_list)]
+    for vf in vals_:
+        sv = State(); me = Int('schedule_addr'); sv.env = {vf.args.args[0].arg: PyObj(me)}; h0 = sv.heap
+        F0 = {f: h0.field(f)[me] for f in ('cron', 'cron_offset', 'time', 'task_name', 'args', 'kwargs', 'labels', 'schedule_id')}
+        exv = Exec({'ValueError': lambda ex_, st_, e, r, a, kw, k, K: k(st_, new_exc(st_, 'ValueError')), 'isinstance': lambda ex_, st_, e, r, a, kw, k, K: (approx(st_, 'isinstance in the model validator'), k(st_, PyBool(fresh('isinst', BoolSort()))))[1]})
+        def v_ret(s, v, F0=F0, me=me, vf=vf):
+            oblige(s, f"ScheduledTask.{vf.name}/post: the validator returns the schedule itself with cron, cron_offset and time exactly as given (it only checks)  [C13/C14]",
+                   And(to_val(v) == Val.ref(me), *[s.heap.field(f)[me] == F0[f] for f in ('cron', 'cron_offset', 'time')]))
+            reach(s, f"ScheduledTask.{vf.name}/reach@return")
+        def v_exc(s, x, F0=F0, vf=vf):
+            oblige(s, f"ScheduledTask.{vf.name}/raises: only for a schedule with neither cron nor time  [C13/C14]", And(F0['cron'] == Val.none, F0['time'] == Val.none))
+        exv.run(vf, sv, v_ret, v_exc)
     # vacuity of the precondition itself
     s0 = State(); s0.pc = list(pre); reach(s0, "get_task_delay/reach@precondition")
     return {'exits': exits}
